@@ -724,6 +724,17 @@ pub(crate) fn m_wrap_step() {
             if ws == WhiteSpace::Normal {
                 assert!(wb.wslen <= 1, "collapsed whitespace is at most one column");
             }
+            // no character that is not whitespace is lost, duplicated or reordered
+            let mut got = String::new();
+            for l in wb.text.iter().chain(std::iter::once(&wb.line)).chain(std::iter::once(&wb.word)) {
+                got.extend(l.chars().filter(|c| !c.is_whitespace()));
+            }
+            let mut want = "x".repeat(line_len);
+            if had_word {
+                if wordlen > 0 { want.push_str(&"y".repeat(wordlen)); } else { want.push('\u{301}'); }
+            }
+            want.extend(text.chars().filter(|c| !c.is_whitespace() && UnicodeWidthChar::width(*c).is_some()));
+            assert!(got == want, "characters lost, duplicated or reordered: {:?}, want {:?}", got, want);
         }
     }
 }
